@@ -335,3 +335,260 @@ def random_program(rnd, nleaves=(2, 4), nsteps=(4, 12), p_pass=0.22, handles=Tru
 def random_cases(seed, n, **kw):
     rnd = random.Random(seed)
     return [random_program(rnd, **kw) for _ in range(n)]
+
+
+# ---------------------------------------------------------------------------------------------
+# C03: broadcast operands used 1..3 times, 1..2 passes, then a two-parameter update
+def c03_cases(tier, seed):
+    rnd = random.Random(seed)
+    sh = shapes(3, 3)
+    pairs = [(a, b) for a in sh for b in sh if bdims(a, b) == b and a != b]     # a is broadcast to b's shape
+    if tier != "thorough":
+        pairs = rnd.sample(pairs, 220)
+    cases = []
+    for a, b in pairs:
+        na, nb = prod(a), prod(b)
+        for uses in (1, 2, 3):
+            for passes in (1, 2):
+                if tier != "thorough" and rnd.random() < 0.5:
+                    continue
+                steps = [RESET, leaf(1, a, [(k % 5) - 2 for k in range(na)], trk=True),
+                         leaf(2, b, [(k % 7) - 3 for k in range(nb)], trk=rnd.random() < 0.5)]
+                cur, h = 2, 10
+                for u in range(uses):
+                    o = rnd.choice(["add", "mul", "sub", "axpy"])
+                    args = [1, cur] if rnd.random() < 0.5 else [cur, 1]
+                    steps.append(op(o, args, h, **({"alpha": sc(2)} if o == "axpy" else {})))
+                    cur = h
+                    h += 1
+                for p in range(passes):
+                    steps.append(backward(cur, seed_tensor(b, k0=p)))
+                steps.append({"op": "grad", "args": [1], "res": 90})
+                # the positional-shift consequence: update two parameters after such a pass
+                steps.append({"op": "tracked", "args": [2]})
+                steps.append({"op": "update", "args": [1, 2], "lr": sc(F(1, 2))})
+                cases.append(steps)
+    # the additive term of matmul broadcast over rows and batches, used twice
+    for (r, k, c) in [(2, 2, 3), (1, 3, 2), (3, 1, 1), (2, 3, 2)]:
+        for lead in ([], [2], [2, 2]):
+            for dc in ([c], [1, c], [1], [r, c]):
+                steps = [RESET, leaf(1, lead + [r, k], [(i % 5) - 2 for i in range(prod(lead) * r * k)], trk=True),
+                         leaf(2, [k, c], [(i % 3) + 1 for i in range(k * c)], trk=True),
+                         leaf(3, dc, [i + 1 for i in range(prod(dc))], trk=True),
+                         op("matmul", [1, 2, 3], 10, ta=False, tb=False),
+                         op("add", [10, 3], 11) if dc != [r, c] or True else None,
+                         backward(11, seed_tensor(lead + [r, c])), backward(11)]
+                cases.append([s for s in steps if s])
+    return cases
+
+
+# ---------------------------------------------------------------------------------------------
+# C09: tracking rules for every operation
+OPS_ARITY = [("add", 2), ("sub", 2), ("mul", 2), ("div", 2), ("axpy", 2), ("neg", 1), ("scale", 1), ("powf", 1),
+             ("recip", 1), ("sum", 1), ("reshape", 1), ("relu", 1), ("matmul2", 2), ("matmul3", 3), ("conv", 2),
+             ("mse", 2), ("cadd", 2), ("cmul", 2), ("csq", 1), ("cfma", 3)]
+
+
+def one_op_steps(name, trk, h0=1, res=10):
+    """operands on handles h0.., the operation on `res`; returns (steps, result dims)"""
+    d = [2, 2]
+    pw = [1, -2, F(1, 2), 4]
+    vals = [[1, -2, 3, 2], [2, 1, -1, 3], [1, 2, 3, 4]]
+    if name == "conv":
+        st = [leaf(h0, [1, 3, 3], list(range(1, 10)), trk=trk[0]), leaf(h0 + 1, [1, 1, 2, 2], [1, -1, 2, 1], trk=trk[1])]
+        return st + [op("conv", [h0, h0 + 1], res, sr=1, sc=1)], [1, 2, 2]
+    ar = dict(OPS_ARITY)[name]
+    st = []
+    for j in range(ar):
+        st.append(leaf(h0 + j, d, pw if (name in ("div",) and j == 1) or name == "recip" else vals[j], trk=trk[j]))
+    args = list(range(h0, h0 + ar))
+    if name.startswith("matmul"):
+        return st + [op("matmul", args, res, ta=False, tb=True)], d
+    if name == "mse":
+        return st + [{"op": "cost", "kind": "mse", "args": args, "res": res}], d
+    par = {"axpy": {"alpha": sc(-2)}, "scale": {"c": sc(3)}, "powf": {"p": {"n": 3}}, "sum": {"k": 1},
+           "reshape": {"d": [4]}}.get(name, {})
+    if name in ("cadd", "cmul", "csq", "cfma"):
+        par["bw"] = any(trk)
+    od = {"sum": [2, 1], "reshape": [4]}.get(name, d)
+    return st + [op(name, args, res, **par)], od
+
+
+def c09_cases(tier, seed):
+    rnd = random.Random(seed)
+    cases = []
+    for name, ar in OPS_ARITY:
+        for m in range(0, 1 << ar):
+            trk = [bool(m >> i & 1) for i in range(ar)]
+            st, od = one_op_steps(name, trk)
+            steps = [RESET] + st
+            if not any(trk):
+                # a result of untracked operands keeps no reference to them: each operand owns its buffer again
+                steps.append({"op": "clone", "args": [10], "res": 11})
+                for j in range(ar):
+                    if not (name == "reshape"):
+                        steps.append({"op": "into_vec", "args": [1 + j]})
+                steps.append(backward(10))          # stores only on the array it is started on
+            else:
+                # flags around and after a pass, gradients plain, untracked operands receive nothing
+                steps.append({"op": "clone", "args": [1], "res": 20})
+                steps.append({"op": "tracked" if not trk[0] else "untracked", "args": [20]})   # flag of a clone only
+                steps.append(backward(10, seed_tensor(od)))
+                steps += grads_of(list(range(1, 1 + ar)))
+                steps.append({"op": "stop", "args": [10]})
+                steps.append({"op": "start", "args": [10]})
+                steps.append(backward(10))
+            cases.append(steps)
+    # untracked intermediate: nothing flows below it
+    for variant in range(8):
+        steps = [RESET, leaf(1, [3], [1, 2, 3], trk=True), leaf(2, [3], [2, -1, 1], trk=True),
+                 op("mul", [1, 2], 3)]
+        steps.append({"op": ["untracked", "stop"][variant % 2], "args": [3]})
+        steps.append(op(["add", "mul"][(variant >> 1) % 2], [3, 2], 4))
+        if variant >= 4:
+            steps.append({"op": "start", "args": [3]})       # re-tracking later does not change the recorded use
+        steps.append(backward(4, seed_tensor([3])))
+        steps += grads_of([1, 2, 3])
+        cases.append(steps)
+    cases += random_cases(seed + 17, 1500 if tier == "thorough" else 250, p_pass=0.3)
+    return cases
+
+
+# ---------------------------------------------------------------------------------------------
+# C11: graphs of user operations only; every derivative invocation is logged
+def c11_cases(tier, seed):
+    rnd = random.Random(seed)
+    cases = []
+    # self-product chains: 2^depth paths, depth derivative evaluations
+    for depth in ([1, 2, 3, 5, 8, 13, 21, 34, 60] if tier != "thorough" else list(range(1, 61))):
+        for kind in ("cmul", "cadd"):
+            steps = [RESET, leaf(1, [2], [1, 1] if kind == "cmul" else [1, -1], trk=True)]
+            cur = 1
+            for k in range(depth):
+                steps.append(op(kind, [cur, cur], 2 + k, bw=True))
+                cur = 2 + k
+            steps.append(backward(cur, None, budget=4 * depth + 8))
+            cases.append(steps)
+    # random DAGs of user operations with fan-out, diamonds, mixed tracking
+    n = 1500 if tier == "thorough" else 300
+    for _ in range(n):
+        d = rnd.choice([[1], [2], [2, 2]])
+        g = Gen(rnd)
+        for _ in range(rnd.randint(1, 3)):
+            g.leaf(d, trk=rnd.random() < 0.8)
+        for _ in range(rnd.randint(2, 9)):
+            name = rnd.choice(["cadd", "cmul", "cmul", "csq", "cfma"])
+            ar = {"cadd": 2, "cmul": 2, "csq": 1, "cfma": 3}[name]
+            g.emit(name, [g.pick() for _ in range(ar)], d)
+            if rnd.random() < 0.15:
+                g.handle_step()
+        g.backward(h=max(g.H))
+        if rnd.random() < 0.5:
+            g.backward()
+        cases.append(g.steps)
+    return cases
+
+
+# ---------------------------------------------------------------------------------------------
+# C12: handle-transparent variants of a program
+def variants_of(steps, rnd):
+    """clone an operand before use / start the pass from a clone / read gradients through a clone /
+    drop handles as soon as they are dead / re-bind handle ids"""
+    out = []
+    maxh = max([s.get("res", 0) for s in steps] + [a for s in steps for a in s.get("args", [])]) + 1
+    # 1. every operand of every operation replaced by a fresh clone
+    v, nh = [], maxh
+    for s in steps:
+        if s["op"] in ("add", "sub", "mul", "matmul", "neg", "scale", "sum", "reshape", "cmul", "cadd", "cfma", "csq",
+                       "relu", "powf", "axpy", "div") and "when" not in s:
+            na = []
+            for a in s["args"]:
+                v.append({"op": "clone", "args": [a], "res": nh})
+                na.append(nh)
+                nh += 1
+            v.append(dict(s, args=na))
+            for a in na:
+                v.append({"op": "drop", "args": [a]})
+        elif s["op"] == "backward":
+            v.append({"op": "clone", "args": s["args"], "res": nh})
+            v.append(dict(s, args=[nh]))
+            nh += 1
+        else:
+            v.append(s)
+    out.append(v)
+    # 2. drop every handle right after its last mention
+    last = {}
+    for i, s in enumerate(steps):
+        for a in s.get("args", []) + ([s["res"]] if "res" in s else []):
+            last[a] = i
+    v = []
+    alive = set()
+    for i, s in enumerate(steps):
+        v.append(s)
+        if s["op"] in ("drop", "into_vec"):
+            alive.discard(s["args"][0])
+        if "res" in s and s["op"] != "grad":
+            alive.add(s["res"])
+        for a in list(alive):
+            if last.get(a) == i and i < len(steps) - 1 and "when" not in s and not (i + 1 < len(steps) and "when" in steps[i + 1]):
+                v.append({"op": "drop", "args": [a]})
+                alive.discard(a)
+    out.append(v)
+    return out
+
+
+def c12_cases(tier, seed):
+    rnd = random.Random(seed)
+    base = random_cases(seed + 5, 1200 if tier == "thorough" else 220, handles=False)
+    cases = []
+    for b in base:
+        cases.append(b)
+        cases += variants_of(b, rnd)
+    # a gradient deposited through any clone is visible through every other clone
+    for k in range(6):
+        steps = [RESET, leaf(1, [2], [3, -1], trk=True), {"op": "clone", "args": [1], "res": 2},
+                 {"op": "clone", "args": [2], "res": 3}, op("mul", [2, 3], 4), {"op": "clone", "args": [4], "res": 5}]
+        steps.append(backward([4, 5][k % 2], seed_tensor([2])))
+        steps += grads_of([1, 2, 3][k % 3:] + [1])
+        steps.append({"op": "setgrad", "args": [[1, 2, 3][k % 3]], "g": tensor([2], [7, 9])})
+        steps.append({"op": "drop", "args": [[1, 2, 3][(k + 1) % 3]]})
+        steps.append({"op": "clear", "args": [[1, 2, 3][(k + 2) % 3]], "how": "replace"})
+        cases.append(steps)
+    return cases
+
+
+# ---------------------------------------------------------------------------------------------
+# C17: seed linearity, omitted seed = ones
+def c17_cases(tier, seed):
+    rnd = random.Random(seed)
+    cases = []
+    # result sizes up to 81 elements: no seed vs explicit ones (checked against the same specification)
+    for d in [[1], [2], [8], [9], [3, 3], [2, 2, 3], [4, 4], [3, 3, 3], [5, 7], [3, 3, 3, 3], [2, 5, 5], [81], [64]]:
+        n = prod(d)
+        for o in ("mul", "add", "csq"):
+            steps = [RESET, leaf(1, d, [(k % 7) - 3 for k in range(n)], trk=True),
+                     leaf(2, d[-1:], [(k % 3) + 1 for k in range(d[-1])], trk=True)]
+            steps.append(op(o, [1, 2], 3) if o != "csq" else op("csq", [1], 3, bw=True))
+            steps.append(backward(3))
+            steps += grads_of([1, 2])
+            steps += [{"op": "clear", "args": [1], "how": "mut"}, {"op": "clear", "args": [2], "how": "replace"},
+                      {"op": "clear", "args": [3], "how": "replace"}]
+            steps.append(backward(3, tensor(d, [1] * n)))
+            cases.append(steps)
+    # alpha*s1 + beta*s2 on random programs: three fresh instances of the same program
+    n = 900 if tier == "thorough" else 150
+    for _ in range(n):
+        g = Gen(rnd)
+        base = [rnd.randint(1, 3) for _ in range(rnd.randint(1, 3))]
+        for _ in range(rnd.randint(1, 3)):
+            g.leaf(base if rnd.random() < 0.6 else base[-1:])
+        for _ in range(rnd.randint(2, 7)):
+            g.random_op()
+        root = max(g.H)
+        d = g.H[root]["d"]
+        s1 = [rnd.choice([1, 2, 3, -1, 5]) for _ in range(prod(d))]
+        s2 = [rnd.choice([1, -2, 4, 7, 0]) for _ in range(prod(d))]
+        al, be = rnd.choice([2, -1, F(1, 2), 3]), rnd.choice([1, -3, F(1, 4)])
+        for sd in (s1, s2, [al * x + be * y for x, y in zip(s1, s2)]):
+            cases.append(g.steps + [backward(root, tensor(d, sd))])
+    return cases
